@@ -11,7 +11,10 @@ analyse(unit, repo, scratch, tier, seed, cfg, prop) -> unit result dict for tool
      entry point.  The predicates are ordinary Rust, shared verbatim by Kani and by the witness replay.
   3. phase 1: ONE `cargo kani -j <n> --export-json` run of all harnesses (parallel), in parallel with the build of the
      replay test binary (`cargo test --no-run --offline` of the same scratch copy, no kani involved)
-  4. phase 2 (only harnesses that failed): `cargo kani --concrete-playback=print` -> concrete counterexample per failed check
+  4. phase 2 (only harnesses that failed; sequential -- Kani refuses playback with -j -- hence capped at units.<u>.max_playback,
+     default 8, plus the uncounted known-finding harnesses): `cargo kani --concrete-playback=print` -> concrete counterexample
+     per failed check.  A failed proof_for_contract harness is played back through its generated twin `<name>__cex` (plain
+     #[kani::proof], same predicate, real function): playback of the contract-instrumented harness takes minutes in Kani 0.68.
   5. replay: the scratch copy's test binary evaluates p_<harness>(concrete values) on the REAL functions and prints
      observed/expected per check; a failure record gets `witness = {found, inputs, observed, expected, ...}`
   6. vacuity guards (every run): checks per harness > 0; the cover!(true) at the end of every harness SATISFIED; every
@@ -104,6 +107,15 @@ def gen_wrappers(spec):
         out.append("        p_%s(%s);" % (h["name"], ", ".join(n for n, _ in h["_inputs"])))
         out.append("        kani::cover!(true, \"REACH %s: end of harness reachable\");" % h["name"])
         out.append("    }")
+        if h["kind"] == "contract":
+            # twin without the contract instrumentation: only used to EXTRACT a counterexample when the contract harness failed
+            # (concrete playback of a proof_for_contract harness takes minutes in Kani 0.68); same predicate, real function
+            out.append("    #[cfg(kani)]")
+            out.append("    #[kani::proof]")
+            out.append("    fn %s__cex() {" % h["name"])
+            for (n, t) in h["_inputs"]: out.append("        let %s: %s = kani::any();" % (n, t))
+            out.append("        p_%s(%s);" % (h["name"], ", ".join(n for n, _ in h["_inputs"])))
+            out.append("    }")
     out.append("")
     out.append("    // ---- generated: witness replay entry (ordinary cargo test, no kani): VERIF_REPLAY_CASES=\"<harness>:v1,v2;...\"")
     out.append("    #[cfg(all(test, not(kani)))]")
@@ -311,15 +323,17 @@ def _analyse(res, unit, repo, work, tier, seed, cfg, prop):
         covers = [c for c in checks if c.get("category") == "cover"]
         unwind_failed = [c for c in props if "unwind" in (c.get("category") or "") and c["status"] == "Failure"]
         fails = [c for c in props if c["status"] == "Failure" and c not in unwind_failed]
-        odd = [c for c in props if c["status"] not in ("Success", "Failure")]
+        unreach = [c for c in props if c["status"] == "Unreachable"]
+        odd = [c for c in props if c["status"] not in ("Success", "Failure", "Unreachable")]
         st = cbmc.get(id_, {}).get("cbmc_stats", {})
         ssec = float(st.get("runtime_decision_procedure_s") or 0) + float(st.get("runtime_symex_s") or 0) + float(st.get("runtime_convert_ssa_s") or 0)
         solver_s += ssec
         counted = h["expect"] == "success" and h.get("counted", True)
         info = {"unit": unit, "obligation": id_, "backend": "kani", "kind": "proof_for_contract(%s)" % h["target"] if h["kind"] == "contract" else "proof",
                 "stub_verified": h.get("stubs", []), "inputs": h["inputs"], "tags": h.get("tags", []), "role": h.get("role", ""),
-                "complete": bool(h.get("complete")) and not unwind_failed, "expected": h["expect"], "status": rr.get("status"),
-                "checks": len(props), "failed": len(fails), "cbmc_s": round(ssec, 3), "wall_ms": rr.get("duration_ms"),
+                "complete": bool(h.get("complete")) and not unwind_failed,
+                "domain": "all 2^%d input tuples (unconstrained kani::any(), no unwinding bound)" % sum(1 if t == "bool" else 8 * INT_TYPES[t] for _, t in h["_inputs"]), "expected": h["expect"], "status": rr.get("status"),
+                "checks": len(props), "failed": len(fails), "unreachable": len(unreach), "cbmc_s": round(ssec, 3), "wall_ms": rr.get("duration_ms"),
                 "counted_in_obligations": counted, "discharged": rr.get("status") == "Success"}
         if h.get("excluded_slice"): info["excluded_slice"] = h["excluded_slice"]
         mine = [c for c in props if c.get("function", "").endswith("::p_" + name) and c.get("category") == "assertion"]
@@ -329,12 +343,17 @@ def _analyse(res, unit, repo, work, tier, seed, cfg, prop):
         if not props:
             res["undecided"].append("vacuity guard: harness %s has no checks" % name)
         if odd or rr.get("status") not in ("Success", "Failure"):
-            res["undecided"].append("harness %s: Kani status %s, %d checks neither SUCCESS nor FAILURE (%s)" % (name, rr.get("status"), len(odd), sorted(set(c["status"] for c in odd))[:3]))
+            res["undecided"].append("harness %s: Kani status %s, %d checks neither SUCCESS, FAILURE nor UNREACHABLE (%s)" % (name, rr.get("status"), len(odd), sorted(set(c["status"] for c in odd))[:3]))
+        if rr.get("status") == "Success" and [c for c in mine if c["status"] == "Unreachable"]:
+            # a stated assertion that cannot be reached in a successful harness holds vacuously (dead code in std is fine, this is not)
+            res["undecided"].append("vacuity guard: %d stated checks of p_%s are unreachable" % (len([c for c in mine if c["status"] == "Unreachable"]), name))
         n_vchk = count_vchk(spec["_module_text"], name)
         if n_vchk is not None and len(mine) < n_vchk:
             res["undecided"].append("vacuity guard: predicate p_%s states %d checks but only %d reached Kani" % (name, n_vchk, len(mine)))
         if second is not None and second.get(id_) != rr.get("status"):
             res["undecided"].append("thorough: solvers disagree on %s (%s vs %s)" % (name, rr.get("status"), second.get(id_)))
+        if rr.get("status") == "Failure" and not fails and not unwind_failed:
+            res["undecided"].append("harness %s: Kani reports FAILED without a failed check" % name)
         if unwind_failed:                                       # a loop was not fully unrolled: the result is bounded, not a proof
             res["bounded"].append({"unit": unit, "harness": id_, "bound": "unwinding assertion failed", "note": "declared complete=%s" % h.get("complete")})
             res["undecided"].append("harness %s: unwinding assertion failed (bounded result, not a proof)" % name)
@@ -350,14 +369,14 @@ def _analyse(res, unit, repo, work, tier, seed, cfg, prop):
                 res["undecided"].append("vacuity guard: end of harness %s not reachable (cover %s)" % (name, [c["status"] for c in covers] or "missing"))
         if h["expect"] == "failure":
             vac["must_fail_probes"] += 1
-            ok = rr.get("status") == "Failure" and fails and all(c["description"].strip('"').startswith("VACUITY-PROBE") for c in fails)
+            ok = rr.get("status") == "Failure" and any(c["description"].strip('"').startswith("VACUITY-PROBE") for c in fails)
             if ok: vac["must_fail_refuted"] += 1
             else:
                 vac["vacuous"].append(name)
-                res["undecided"].append("vacuity guard: probe %s was not refuted by exactly its deliberately false claim (status %s, failed %s)" % (name, rr.get("status"), [c["description"][:60] for c in fails][:3]))
+                res["undecided"].append("vacuity guard: probe %s: its deliberately false claim was not refuted (status %s, failed %s)" % (name, rr.get("status"), [c["description"][:60] for c in fails][:3]))
             continue
         if counted:
-            res["verified"] += len([c for c in props if c["status"] == "Success"])
+            res["verified"] += len([c for c in props if c["status"] in ("Success", "Unreachable")])
             res["errors"] += len(fails)
         if fails: failed_ids.append(name)
     vac["probes"] = vac["reachability_covers"] + vac["must_fail_probes"]
@@ -368,17 +387,23 @@ def _analyse(res, unit, repo, work, tier, seed, cfg, prop):
     if floor and res["verified"] + res["errors"] < floor:
         res["undecided"].append("obligation count %d below recorded floor %d" % (res["verified"] + res["errors"], floor))
     # ---- phase 2: counterexamples for the failed harnesses, replayed on the real crate
-    playback, replays = {}, {}
+    playback, replays, replay_cmd = {}, {}, None
     if failed_ids:
-        pb_cmd = kani_cmd(spec, [hid(n) for n in failed_ids], ["--output-format", "terse", "--harness-timeout", "%ds" % hto, "-Z", "concrete-playback", "--concrete-playback=print"])
-        pb = run(pb_cmd, wrepo, kenv, hto * len(failed_ids) + 600)
+        hmap = {h["name"]: h for h in harnesses}
+        # counterexamples are extracted sequentially (Kani refuses --concrete-playback with -j): at most `max_playback` failed
+        # harnesses in spec order, plus the uncounted (known-finding) ones; contract harnesses through their __cex twin
+        cap = int(ucfg.get("max_playback", 8))
+        pb_ids = [n for n in failed_ids if hmap[n].get("counted", True)][:cap] + [n for n in failed_ids if not hmap[n].get("counted", True)]
+        twin = lambda n: n + "__cex" if hmap[n]["kind"] == "contract" else n
+        pb_cmd = kani_cmd(spec, [hid(twin(n)) for n in pb_ids], ["--output-format", "terse", "--harness-timeout", "%ds" % hto, "-Z", "concrete-playback", "--concrete-playback=print"])
+        pb = run(pb_cmd, wrepo, kenv, hto * len(pb_ids) + 600)
         playback = parse_playback(pb["out"])
         res["playback_wall_s"] = round(pb["wall"], 2)
+        if len(pb_ids) < len(failed_ids): res["notes"].append("counterexamples extracted for %d of %d failed harnesses (max_playback)" % (len(pb_ids), len(failed_ids)))
         cases = []                                             # (harness, check description, values)
-        hmap = {h["name"]: h for h in harnesses}
-        for n in failed_ids:
+        for n in pb_ids:
             k = len(hmap[n]["_inputs"])
-            for (cat, desc, vals) in playback.get(hid(n), []):
+            for (cat, desc, vals) in playback.get(hid(twin(n)), []):
                 if cat == "cover" or len(vals) < k: continue
                 cases.append((n, desc, vals[:k]))
         if cases and rbuild["rc"] == 0:
@@ -417,7 +442,7 @@ def _analyse(res, unit, repo, work, tier, seed, cfg, prop):
                     where = "%s:%s" % (loc.get("file"), loc.get("line")) if loc else None
                 # the counterexample Kani produced for THIS check (else any counterexample of the harness)
                 idxs = [i for i, (cn, cd, _) in enumerate(cases) if cn == n and cd.strip('"') == label] or [i for i, (cn, _, _) in enumerate(cases) if cn == n]
-                witness = {"found": False, "note": "Kani returned no concrete counterexample for this check"}
+                witness = {"found": False, "note": "no concrete counterexample extracted for this harness" + ("" if n in pb_ids else " (beyond max_playback; see the other failed obligations)")}
                 for i in idxs:
                     vals = cases[i][2]
                     inputs = {nm: v for (nm, _), v in zip(h["_inputs"], vals)}
